@@ -758,6 +758,7 @@ package apd
 //@   pure
 //@   allocates
 //@   loop 1 invariant closed(r) && i != 0 && (i & bvdec(i)) == 0 && (r & bvdec(i)) == 0
+//@   loop 1 invariant isfresh(names)
 //@   loop 1 decreases 8192 - bvint(i)
 
 //@ func (*Context).goError
@@ -1394,8 +1395,11 @@ package apd
 //@ define fits(c: *Context, d: *Decimal): bool = d.Form == Finite ==> (val(d.Coeff) >= 0 && val(d.Coeff) < pow10(c.Precision) && d.Exponent + nd10(val(d.Coeff)) - 1 <= c.MaxExponent && (val(d.Coeff) != 0 ==> d.Exponent >= etiny(c)))
 
 //@ func (*Decimal).String
-//@   trusted the frame only (d.Text('G') below is verified for panics; its byte buffers live in fresh memory, which the loop model cannot show)
+//@   props C04 C06 C18
+//@   exported
+//@   requires d != nil
 //@   pure
+//@   allocates
 
 //@ func (*Decimal).Float64
 //@   trusted strconv.ParseFloat of the text form; the float result is never interpreted by the verifier
@@ -2151,30 +2155,39 @@ package apd
 //@   ensures [wf] ret2 == nil ==> ret0 != nil && inv(ret0)
 // ---------------------------------------------------------------- formatting: no panic (C04); the text itself is C13/C14
 //@ func strconv.AppendUint
-//@   trusted strconv (panics for a base outside 2..36; appends at least one digit)
+//@   trusted strconv (panics for a base outside 2..36; appends at least one digit - in dst's spare cells when they suffice, else in a new array)
 //@   requires 2 <= base && base <= 36
-//@   pure
+//@   assigns spare(dst)
 //@   allocates
-//@   ensures len(ret) >= len(dst) + 1
+//@   ensures len(ret) >= len(dst) + 1 && extends(ret, dst)
+//@ func strconv.AppendInt
+//@   trusted strconv (panics for a base outside 2..36; appends at least one digit - in dst's spare cells when they suffice, else in a new array)
+//@   requires 2 <= base && base <= 36
+//@   assigns spare(dst)
+//@   allocates
+//@   ensures len(ret) >= len(dst) + 1 && extends(ret, dst)
 //@ func math/big.(*Int).Append
-//@   trusted math/big's formatter (panics for a base outside 2..62; appends at least one digit)
+//@   trusted math/big's formatter (panics for a base outside 2..62; appends at least one digit - in buf's spare cells when they suffice, else in a new array)
 //@   requires 2 <= base && base <= 62
-//@   pure
+//@   assigns spare(buf)
 //@   allocates
-//@   ensures len(ret) >= len(buf) + 1
+//@   ensures len(ret) >= len(buf) + 1 && extends(ret, buf)
 //@ func (*BigInt).Append
 //@   layer bigint
-//@   props C16 C04
+//@   props C16 C04 C06 C18
 //@   nilable z
 //@   requires (z != nil ==> rep(z)) && 2 <= base && base <= 62
-//@   pure
+//@   assigns spare(buf)
 //@   allocates
-//@   ensures z != nil ==> len(ret) >= len(buf) + 1
+//@   ensures [grows] z != nil ==> len(ret) >= len(buf) + 1
+//@   ensures [extends] extends(ret, buf)
 //@ func (*Decimal).Append
-//@   props C04
-//@   unreachable ret1: the default case of the switch over the four valid forms
+//@   props C04 C06 C18
 //@   exported
-//@   requires inv(d)
+//@   requires d != nil
+//@   assigns spare(buf)
+//@   allocates
+//@   ensures [extends] extends(ret, buf)
 //@ func (*Decimal).Scan
 //@   props C04 C06
 //@   exported
@@ -2209,17 +2222,25 @@ package apd
 //@   exported
 //@   requires inv(d)
 //@ func fmtE
-//@   props C04
-//@   requires inv(d) && len(digits) >= 1
+//@   props C04 C06 C18
+//@   requires d != nil && len(digits) >= 1
+//@   assigns spare(buf)
+//@   allocates
+//@   ensures [extends] extends(ret, buf)
+//@ func fmtF
+//@   props C04 C06 C18
+//@   requires d != nil && len(digits) >= 1
+//@   assigns spare(buf)
+//@   allocates
+//@   loop 1 invariant extends(buf, old(buf))
+//@   loop 2 invariant extends(buf, old(buf))
+//@   ensures [extends] extends(ret, buf)
+//@ func (*Decimal).Text
+//@   props C04 C06 C18
+//@   exported
+//@   requires d != nil
 //@   pure
 //@   allocates
-//@ func fmtF
-//@   props C04
-//@   requires inv(d) && len(digits) >= 1
-//@ func (*Decimal).Text
-//@   props C04
-//@   exported
-//@   requires inv(d)
 // ---------------------------------------------------------------- byte-level conversions: no panic, well-formed results (the bytes themselves are C13)
 //@ func math/big.(*Int).FillBytes
 //@   trusted math/big (panics when the magnitude does not fit in buf)
